@@ -326,7 +326,7 @@ Lemma wf_rules_bounded : forall f, wf_fontb f = true -> rules_bounded (nG f) (al
 Proof.
   intros f Hwf r Hr. destruct (wf_font_parts f Hwf) as [_ [_ [Hs _]]].
   apply in_all_rules in Hr. destruct Hr as [lk [s [Hlk [Hin Hr]]]].
-  specialize (Hs lk s Hlk Hin). destruct s as [d cov|m|sets]; cbn [wf_subb rules_of_sub] in *.
+  specialize (Hs lk s Hlk Hin). destruct s as [d cov|m|sets|alt m]; cbn [wf_subb rules_of_sub] in *; [| | |discriminate].
   - apply andb_true_iff in Hs. destruct Hs as [_ Hs]. rewrite forallb_forall in Hs.
     apply in_map_iff in Hr. destruct Hr as [g [Er Hg]]. subst r. cbn [r_in r_out].
     specialize (Hs g Hg). apply andb_true_iff in Hs. destruct Hs as [H1 H2].
@@ -383,6 +383,7 @@ Definition pure_sub (st : sst) (s : gsubst) : list gsubst :=
   | Single2 _ => []
   | Lig sets =>
       match pure_sets st (retained st fst sets) with [] => [] | ns => [Lig ns] end
+  | Multi _ _ => []
   end.
 
 Definition pure_lookup (st : sst) (lk : list gsubst) : list gsubst := flat_map (pure_sub st) lk.
@@ -452,6 +453,7 @@ Definition sub_closed (st : sst) (s : gsubst) : Prop :=
   | Single2 _ => False
   | Lig sets => forall s l, In s sets -> In l (snd s) -> In (fst s) (s_glyphs st) ->
                   forallb (has st) (fst l) = true -> In (snd l) (s_glyphs st)
+  | Multi _ _ => False
   end.
 
 Lemma build_subs_pure : forall n st ss, Inv n st -> (forall s, In s ss -> sub_closed st s) ->
@@ -460,7 +462,7 @@ Proof.
   intros n st. induction ss as [|s r IH]; intros HI H; cbn [build_subs flat_map]; [reflexivity|].
   assert (Hr : forall x, In x r -> sub_closed st x) by (intros x Hx; apply H; right; exact Hx).
   pose proof (H s (or_introl eq_refl)) as Hs.
-  destruct s as [d cov|m|sets]; cbn [sub_closed pure_sub] in *.
+  destruct s as [d cov|m|sets|alt m]; cbn [sub_closed pure_sub] in *; [| | |contradiction].
   - rewrite (build_single_pure n st d _ HI).
     + rewrite (IH HI Hr). cbn [obind fst snd].
       destruct (pure_single st d (retained st (fun g => g) cov)); reflexivity.
@@ -489,7 +491,7 @@ Lemma closed_sub_closed : forall f st lk s, wf_fontb f = true -> Inv (nG f) st -
 Proof.
   intros f st lk s Hwf HI Hc Hlk Hs.
   destruct (wf_font_parts f Hwf) as [_ [_ [Hsub _]]]. specialize (Hsub lk s Hlk Hs).
-  destruct s as [d cov|m|sets]; cbn [sub_closed wf_subb] in *.
+  destruct s as [d cov|m|sets|alt m]; cbn [sub_closed wf_subb] in *; [| | |discriminate].
   - intros g Hg Hin.
     apply (Hc (mkRule 0 [g] [wrap16 (g + d)])).
     + apply in_all_rules. exists lk, (Single1 d cov). split; [exact Hlk|]. split; [exact Hs|].
